@@ -64,7 +64,8 @@ def after(ctx, rng, desc):
                     ctx.cpu.registers.set(n_, 0x80000000)
                     ctx.cpu.registers.set(m_, 0xFFFFFFFF)
             return
-    if rng.random() > 0.3:
+    k_ = rng.random()
+    if k_ > 0.45:
         return
     from vf import observe
     cpu = ctx.cpu
@@ -73,6 +74,28 @@ def after(ctx, rng, desc):
     if verdict != 'ok' or not info.get('cond_passed') or 'umaal' in (info.get('row') or ''):
         return
     r = cpu.registers
+    if k_ > 0.3:
+        # the two factors of a 32 x 32 multiply are solved so that the LOW WORD of the full product sits on a boundary while
+        # the product itself is large (Rn odd and random, Rm = target / Rn modulo 2^32): just below 2^32 (a carry into the
+        # high word that a rounding or inexact split gets wrong), 0, the rounding constant of SMMULR/SMMLAR/SMMLSR
+        try:
+            n_, m_ = int(ops['n']), int(ops['m'])
+        except (KeyError, ValueError, TypeError):
+            return
+        if n_ == m_ or 15 in (n_, m_) or not any(t in (info.get('row') or '') for t in ('mul', 'mla', 'mls', 'mlal')):
+            return
+        rn = rng.getrandbits(32) | 1 | (rng.choice([0, 1, 1]) << 31)
+        target = rng.choice([0, 1, 0x7FFFFFFF, 0x80000000, 0x80000001, 0xFFFFFFFF, 0xFFFFFFFF, (1 << 32) - rng.randrange(1, 2048),
+                             (1 << 32) - rng.randrange(1, 2048), rng.randrange(0, 2048)])
+        rm = (target * pow(rn, -1, 1 << 32)) & 0xFFFFFFFF
+        if rng.random() < 0.5:
+            rn, rm = rm, rn
+        r.set(n_, rn)
+        r.set(m_, rm)
+        desc['regs'][n_] = '%#x' % rn
+        desc['regs'][m_] = '%#x' % rm
+        desc['product_low_word_solved_for'] = '%#x' % target
+        return
     try:
         if 'd_lo' in ops and 'd_hi' in ops:
             lo, hi = int(ops['d_lo']), int(ops['d_hi'])
